@@ -214,6 +214,38 @@ def r_transform(c):
                 probs.append("a key did not receive its own slice")
             off += n
         return dict(reproduced=bool(probs), why=probs)
+    if w == "stack":
+        from torchjd.autojac._transform import Transform
+        dt = torch.float64 if c.get("dtype") == "float64" else torch.float32
+        s0, s1 = tuple(c["shapes"][0]), tuple(c["shapes"][1])
+        keys = [torch.zeros(s0, dtype=dt), torch.zeros(s1, dtype=dt)]
+        rng = np.random.default_rng(2)
+        dicts = []
+        for ks in c["present"]:
+            dicts.append({keys[j]: torch.tensor(rng.normal(size=keys[j].shape) / 3.0, dtype=dt).reshape(keys[j].shape) for j in ks})
+
+        class Const(Transform):
+            def __init__(self, d):
+                self.d = Gradients(d)
+            def _compute(self, inp):
+                return self.d
+            required_keys = property(lambda self: set())
+            output_keys = property(lambda self: set(self.d.keys()))
+
+        res = Stack([Const(d) for d in dicts])(EmptyTensorDict())
+        probs = []
+        used = sorted({j for p in c["present"] for j in p})
+        if set(res.keys()) != {keys[j] for j in used}:
+            probs.append("keys of the stacked dictionary")
+        for j in used:
+            key = keys[j]
+            exp = np.stack([dicts[i][key].numpy() if key in dicts[i] else np.zeros(tuple(key.shape)) for i in range(len(dicts))])
+            got = res[key]
+            if got.dtype != dt:
+                probs.append(f"stacked Jacobian has dtype {got.dtype} for {dt} gradients")
+            if tuple(got.shape) != exp.shape or not close(got.numpy().astype(float), exp, 1e-12 if dt == torch.float64 else 1e-6):
+                probs.append("row i is not transform i's gradient (zeros when absent)")
+        return dict(reproduced=bool(probs), why=probs[:3])
     if w == "init_diag":
         shapes = [tuple(s) for s in c["shapes"]]
         keys = [torch.zeros(s, dtype=torch.float64) for s in shapes]
